@@ -551,33 +551,41 @@ INITK = {"random": "InitRandom", "svd": "InitSvd", "user": "InitUser"}
 
 
 class NormSpy:
-    """harness-level interposition (no source hook): every binding of cp_tensor.cp_normalize inside the tensorly modules
-    is replaced by a wrapper that remembers the outputs, for the duration of one call"""
+    """harness-level interposition (no source hook): every binding of cp_tensor.cp_normalize / tucker_tensor.tucker_normalize inside
+    the tensorly modules is replaced by a wrapper that remembers (copies of) the outputs, for the duration of one call"""
+
+    def __init__(self, module="tensorly.cp_tensor", name="cp_normalize"):
+        self.module, self.name = module, name
 
     def __enter__(self):
-        import sys
-        import tensorly.cp_tensor as cpm
-        self.orig = cpm.cp_normalize
+        import sys, importlib
+        name = self.name
+        self.orig = getattr(importlib.import_module(self.module), name)
         self.outputs = []
         orig, outputs = self.orig, self.outputs
 
-        def spy(cp_tensor):
-            r = orig(cp_tensor)
-            w, fs = r                 # snapshot: the drivers go on writing into the returned factor list
-            outputs.append((np.array(w, copy=True), [np.array(f, copy=True) for f in fs]))
+        def spy(t):
+            r = orig(t)
+            a, fs = r                 # snapshot: the drivers go on writing into the returned factor list
+            outputs.append((np.array(a, copy=True), [np.array(f, copy=True) for f in fs]))
             return r
-        self.spy = spy
         self.patched = []
-        for name, mod in list(sys.modules.items()):
-            if name.startswith("tensorly") and mod is not None and getattr(mod, "cp_normalize", None) is orig:
-                setattr(mod, "cp_normalize", spy)
+        for mname, mod in list(sys.modules.items()):
+            if mname.startswith("tensorly") and mod is not None and getattr(mod, name, None) is orig:
+                setattr(mod, name, spy)
                 self.patched.append(mod)
         return self
 
     def __exit__(self, *a):
         for mod in self.patched:
-            setattr(mod, "cp_normalize", self.orig)
+            setattr(mod, self.name, self.orig)
         return False
+
+    def is_last_output(self, a, fs):
+        if not self.outputs:
+            return False
+        la, lf = self.outputs[-1]
+        return bool(np.array_equal(la, a) and len(lf) == len(fs) and all(np.array_equal(x, y) for x, y in zip(lf, fs)))
 
 
 def run_norm_case(nc):
@@ -599,6 +607,8 @@ def run_norm_case(nc):
               random_state=nc["seed"], return_errors=True)
     if nc.get("fixed"):
         kw["fixed_modes"] = list(nc["fixed"])
+    for k, v in (nc.get("opts") or {}).items():
+        kw[k] = (r.random_sample(s) > 0.15).astype(float) if k == "mask" else v
     states, fired = [], [False]
     cb_stop = nc.get("cb_stop")
     if nc["fn"] == "parafac" and (nc.get("callback") or cb_stop is not None):
@@ -617,11 +627,161 @@ def run_norm_case(nc):
         out, errors = out
     res = dict(st=st, out=out, last=(states[-1] if states else None), X=X, errors=errors, n_norm=len(spy.outputs),
                ends_norm=False, cb_fired=fired[0])
-    if st == "ok" and spy.outputs:
-        lw, lf = spy.outputs[-1]
-        res["ends_norm"] = bool(np.array_equal(lw, out.weights) and len(lf) == len(out.factors)
-                                and all(np.array_equal(a, b) for a, b in zip(lf, out.factors)))
+    if st == "ok":
+        res["ends_norm"] = spy.is_last_output(out.weights, out.factors)
     return res
+
+
+# --- the other drivers with a normalize_factors option: non_negative_tucker(_hals) (scale in the core), parafac2, CMTF
+FN2 = {"non_negative_tucker": "NnTucker", "non_negative_tucker_hals": "NnTuckerHals", "parafac2": "Parafac2"}
+
+
+def run_norm2_case(nc):
+    """nc: dict(fn, shape | slices, rank, seed, n_iter_max, tol, normalize_factors, init) -> dict(st, out, errors, n_norm, ends_norm)"""
+    from tensorly import decomposition as D
+    from tensorly.decomposition._cmtf_als import coupled_matrix_tensor_3d_factorization
+    r = np.random.RandomState(nc["seed"])
+    fn = nc["fn"]
+    kw = dict(n_iter_max=nc["n_iter_max"], tol=nc["tol"], normalize_factors=nc["normalize_factors"])
+    if fn in ("non_negative_tucker", "non_negative_tucker_hals"):
+        X = r.random_sample(tuple(nc["shape"])) + 0.1
+        spy = NormSpy("tensorly.tucker_tensor", "tucker_normalize")
+        with spy:
+            st, out = C.call_impl(getattr(D, fn), X, list(nc["rank"]), timeout=60, init=nc["init"], random_state=nc["seed"], return_errors=True, **kw)
+        res = dict(st=st, out=out, errors=None, n_norm=len(spy.outputs), ends_norm=False)
+        if st == "ok":
+            res["out"], res["errors"] = out
+            res["ends_norm"] = spy.is_last_output(res["out"].core, res["out"].factors)
+        return res
+    if fn == "parafac2":
+        K = nc["shape"][1]
+        slices = [r.random_sample((j, K)) + 0.1 for j in nc["shape"][0]]
+        spy = NormSpy()
+        with spy:
+            st, out = C.call_impl(D.parafac2, slices, nc["rank"], timeout=60, init=nc["init"], random_state=nc["seed"], return_errors=True,
+                                  n_iter_parafac=2, linesearch=False, **kw)
+        res = dict(st=st, out=out, errors=None, n_norm=len(spy.outputs), ends_norm=False)
+        if st == "ok":
+            res["out"], res["errors"] = out
+            w, fs, _ = res["out"]
+            res["ends_norm"] = spy.is_last_output(w, fs)
+        return res
+    if fn == "cmtf":
+        X = r.random_sample(tuple(nc["shape"])) + 0.1
+        Y = r.random_sample((nc["shape"][0], 3)) + 0.1
+        st, out = C.call_impl(coupled_matrix_tensor_3d_factorization, X, Y, nc["rank"], timeout=60, **kw)
+        return dict(st=st, out=out, errors=(out[2] if st == "ok" else None), n_norm=0, ends_norm=False)
+    raise KeyError(fn)
+
+
+def _unit_columns(fs, zero_ok):
+    for k, f in enumerate(fs):
+        for c, v in enumerate(np.linalg.norm(np.asarray(f), axis=0)):
+            if abs(v - 1) > TOL and not (v == 0 and zero_ok(k, c)):
+                return f"column {c} of factor {k} has norm {v!r} (normalize_factors=True)"
+    return None
+
+
+def pred_norm2(nc, res):
+    if res["st"] != "ok":
+        return f"raised: {res['out']}", "C08_norm_runs"
+    out, fn, nf = res["out"], nc["fn"], nc["normalize_factors"]
+    if fn in ("non_negative_tucker", "non_negative_tucker_hals"):
+        core, fs = out
+        if not (np.all(np.isfinite(core)) and all(np.all(np.isfinite(f)) for f in fs)):
+            return "non-finite output", "C08_norm_finite"
+        if nf:
+            m = _unit_columns(fs, lambda k, c: not np.any(np.take(core, c, axis=k)))
+            if m:
+                return m, "C08_norm_unit_columns"
+        return None
+    if fn == "parafac2":
+        w, fs, _ = out
+        if nf:
+            m = _unit_columns(fs, lambda k, c: w[c] == 0)
+            if m:
+                return m, "C08_norm_unit_columns"
+        elif not np.all(np.asarray(w) == 1):
+            return f"weights {np.asarray(w).tolist()} are not all ones (normalize_factors=False)", "C08_norm_weights_ones"
+        return None
+    t, mp, _ = out
+    if nf:
+        for cp in (t, mp):
+            m = _unit_columns(cp.factors, lambda k, c, cp=cp: cp.weights[c] == 0)
+            if m:
+                return m, "C08_norm_unit_columns"
+    return None
+
+
+def norm2_cases(tier, rng):
+    quick = tier == "quick"
+    tk = [((4, 5, 3), (2, 3, 2)), ((3, 4), (2, 2))] if quick else [((4, 5, 3), (2, 3, 2)), ((3, 4), (2, 2)), ((3, 3, 2, 2), (2, 2, 1, 2)), ((5, 2, 4), (3, 2, 2))]
+    for fn in ("non_negative_tucker", "non_negative_tucker_hals"):
+        for shape, rank in tk:
+            for init in ("svd", "random"):
+                for nf in (True, False):
+                    for tol in (1e10, 0, 1e-4):
+                        for nit in (0, 1, 2, 3, 4, 8):
+                            if tol == 1e-4 and nit < 8:
+                                continue
+                            if quick and rng.random() < 0.4:
+                                continue
+                            yield dict(fn=fn, shape=shape, rank=rank, seed=rng.randrange(10 ** 6), init=init, n_iter_max=nit, tol=tol, normalize_factors=nf)
+    p2 = [((4, 5, 3), 4, 2), ((3, 3), 3, 2)] if quick else [((4, 5, 3), 4, 2), ((3, 3), 3, 2), ((5, 4, 6, 4), 4, 3), ((2, 3, 4), 2, 1)]
+    for js, K, R in p2:
+        for init in ("random", "svd"):
+            for nf in (True, False):
+                for tol in (1e10, 0, 1e-6):
+                    for nit in (0, 1, 2, 3, 5):
+                        if quick and rng.random() < 0.4:
+                            continue
+                        yield dict(fn="parafac2", shape=(js, K), rank=R, seed=rng.randrange(10 ** 6), init=init, n_iter_max=nit, tol=tol, normalize_factors=nf)
+    for shape in ([(4, 3, 2)] if quick else [(4, 3, 2), (3, 3, 3)]):
+        for nf in (True, False):
+            for tol in (1e10, 1e-300):
+                for nit in (1, 2, 3):                   # n_iter_max=0 is not accepted by CMTF (raises)
+                    yield dict(fn="cmtf", shape=shape, rank=2, seed=rng.randrange(10 ** 6), init="svd", n_iter_max=nit, tol=tol, normalize_factors=nf)
+
+
+def norm2_decisions(nc, res):
+    """decision sequence (answer tape) of a non_negative_tucker(_hals) / parafac2 run, the number of sweeps to expect, and whether the
+    run left the loop through the convergence break"""
+    n, tol, errors = nc["n_iter_max"], nc["tol"], [float(e) for e in res["errors"]]
+    k = len(errors)
+    first = 2 if nc["fn"] != "parafac2" else 1          # first iteration at which the convergence test is evaluated
+    if not tol:
+        return [False] * n, n, False                    # the number of sweeps is not reported: every sweep runs
+    if tol >= 1e9:
+        return [True] * n, k, n > first                 # fires as soon as it is evaluated
+    dec = [False] * n
+    # the implementation's own test, re-evaluated on the errors it reports (decides the ambiguous case "stopped at the last sweep")
+    fired = k > first and k <= n and abs(errors[-2] - errors[-1]) < tol
+    if fired:
+        dec[k - 1] = True
+    return dec, k, fired
+
+
+def norm2_case_lit(cid, nc, res):
+    n, tol = nc["n_iter_max"], nc["tol"]
+    dec, sweeps, _ = norm2_decisions(nc, res)
+    dl = "[" + "; ".join(C.boolc(b) for b in dec) + "]" if dec else "(@nil bool)"
+    op = f"(DNorm2 {FN2[nc['fn']]} {C.boolc(nc['normalize_factors'])} {C.boolc(bool(tol))} {C.nat(n)} {dl})"
+    exp = f"(Ok [[{sweeps}]%nat; [{1 if res['ends_norm'] else 0}]%nat; [{1 if res['n_norm'] else 0}]%nat])"
+    return f"({cid}%N, {op}, {exp})"
+
+
+def clf_nn_tucker_convergence_exit(f):
+    """non_negative_tucker(_hals), normalize_factors=True: the convergence break precedes tucker_normalize"""
+    i = f["inputs"]
+    return i.get("fn") in ("non_negative_tucker", "non_negative_tucker_hals") and i.get("normalize_factors") is True and \
+        i.get("exit") == "convergence"
+
+
+def clf_cap0_not_normalised(f):
+    """non_negative_tucker(_hals) / parafac2, normalize_factors=True, n_iter_max=0: the initialisation is returned as it is"""
+    i = f["inputs"]
+    return i.get("fn") in ("non_negative_tucker", "non_negative_tucker_hals", "parafac2") and i.get("normalize_factors") is True and \
+        i.get("n_iter_max") == 0
 
 
 def cp_full(w, fs):
@@ -703,6 +863,39 @@ def pred_cp_normalize(cc, st, out, before):
     return None
 
 
+def run_tucker_normalize_case(cc):
+    from tensorly.tucker_tensor import tucker_normalize, tucker_to_tensor
+    r = np.random.RandomState(cc["seed"])
+    ranks = [max(1, min(d, cc["rank"])) for d in cc["shape"]]
+    fs = [(r.randint(-3, 4, size=(d, k)).astype(float) if cc["integer"] else r.standard_normal((d, k))) for d, k in zip(cc["shape"], ranks)]
+    if cc["zero_col"] is not None:
+        k, c = cc["zero_col"]
+        fs[k][:, min(c, ranks[k] - 1)] = 0.0
+    core = r.standard_normal(ranks)
+    before = tucker_to_tensor((core, fs))
+    st, out = C.call_impl(tucker_normalize, (core.copy(), [f.copy() for f in fs]), timeout=60)
+    return st, out, before, ranks
+
+
+def pred_tucker_normalize(cc, st, out, before, ranks):
+    """transcription of C08_tucker_normalize_{unit_columns, represents}"""
+    from tensorly.tucker_tensor import tucker_to_tensor
+    if st != "ok":
+        return f"raised: {out}", "C08_tucker_normalize_runs"
+    core, fs = out
+    if [f.shape for f in fs] != [(d, k) for d, k in zip(cc["shape"], ranks)] or tuple(core.shape) != tuple(ranks):
+        return f"shapes changed: {[f.shape for f in fs]}, core {core.shape}", "C08_tucker_normalize_shapes"
+    for k, f in enumerate(fs):
+        for c, v in enumerate(np.linalg.norm(f, axis=0)):
+            if abs(v - 1) > 1e-12 and v != 0:
+                return f"column {c} of factor {k} has norm {v!r}", "C08_tucker_normalize_unit_columns"
+    after = tucker_to_tensor((core, fs))
+    e = float(np.max(np.abs(after - before))) / max(1.0, float(np.max(np.abs(before))))
+    if e > 1e-12:
+        return f"the normalised Tucker tensor represents another tensor (residual {e:.2e}): scale not carried by the core", "C08_tucker_normalize_represents"
+    return None
+
+
 def norm_decisions(nc, res):
     """the decision sequence of this run (answer tape for the model) and whether the number of sweeps is observable"""
     n, tol, cb = nc["n_iter_max"], nc["tol"], nc.get("cb_stop")
@@ -768,6 +961,19 @@ def norm_cases(tier, rng):
                             continue
                         yield dict(base, fn="parafac", shape=s, rank=2, seed=rng.randrange(10 ** 6), init=init, n_iter_max=nit, tol=tol,
                                    normalize_factors=nf, callback=True, cb_stop=cb)
+    # option combinations that reshape the sweep (orthogonalisation, line search, ridge term, missing values, HALS variants)
+    optsets = [("parafac", dict(orthogonalise=True)), ("parafac", dict(orthogonalise=2)), ("parafac", dict(linesearch=True)),
+               ("parafac", dict(l2_reg=0.1)), ("parafac", dict(mask=True)), ("parafac", dict(linesearch=True, orthogonalise=True, l2_reg=0.01)),
+               ("non_negative_parafac", dict(mask=True)), ("non_negative_parafac_hals", dict(nn_modes=[0])),
+               ("non_negative_parafac_hals", dict(exact=True)), ("non_negative_parafac_hals", dict(sparsity_coefficients=[0.05, None, 0.05]))]
+    for fn, opts in optsets:
+        for init in ("random", "user") if quick else ("random", "svd", "user"):
+            for nf in (True, False):
+                for tol, nit in ((0, 9), (1e10, 9), (1e-3, 12), (0, 1)):
+                    if quick and rng.random() < 0.5:
+                        continue
+                    yield dict(base, fn=fn, shape=(3, 4, 2), rank=2, seed=rng.randrange(10 ** 6), init=init, n_iter_max=nit, tol=tol,
+                               normalize_factors=nf, callback=(fn == "parafac" and rng.random() < 0.5), opts=opts)
     # fixed modes (parafac returns the initialisation when every mode is fixed; the last mode cannot be fixed otherwise)
     for fn in CPFUNS:
         for s in shapes[:2] if quick else shapes[:4]:
@@ -789,9 +995,10 @@ def _all_fixed(i):
     return i.get("fn") == "parafac" and list(i.get("fixed") or []) == list(range(len(i.get("shape", []))))
 
 
-# no known finding at present (the earlier classes "user initialisation and no sweep", "callback stop" were repaired by
-# 3de556b and are kept as corpus inputs, corpus/C08/normalisation_exits.json)
-CLASSIFIERS = {}
+# the earlier classes "user initialisation and no sweep", "callback stop" of the CP drivers were repaired by 3de556b and are
+# kept as corpus inputs (corpus/C08/normalisation_exits.json); the classifiers of the present known findings are defined
+# next to the predicates of the Tucker / PARAFAC2 drivers above
+CLASSIFIERS = {"nn_tucker_convergence_exit": clf_nn_tucker_convergence_exit, "cap0_not_normalised": clf_cap0_not_normalised}
 
 
 def _install_known_loader():
@@ -889,7 +1096,7 @@ def _run(chk, rng):
         exit_kind = ("all_fixed" if _all_fixed(nc) else "callback" if res["cb_fired"] else "cap0" if nc["n_iter_max"] == 0 else
                      "convergence" if (res["errors"] is not None and nc["tol"] and len(res["errors"]) < nc["n_iter_max"]) else "cap")
         chk.count(key=("norm", nc["fn"], nc["shape"], nc["rank"], nc["init"], nc["n_iter_max"], nc["tol"], nc["normalize_factors"],
-                       nc.get("cb_stop"), tuple(nc.get("fixed") or ())))
+                       nc.get("cb_stop"), tuple(nc.get("fixed") or ()), str(sorted((nc.get("opts") or {}).items()))))
         chk.hist("norm_exit", exit_kind)
         if res["st"] == "ok":
             cid = len(cases)
@@ -903,6 +1110,32 @@ def _run(chk, rng):
             out = res["out"]
             chk.finding(f"tensorly.decomposition.{nc['fn']}", inputs, msg, pred,
                         observed=None if res["st"] != "ok" else {"weights": out.weights, "column_norms": [np.linalg.norm(f, axis=0) for f in out.factors]})
+    # ---- the same contract for non_negative_tucker(_hals) (scale in the core), parafac2 and CMTF
+    for nc in norm2_cases(tier, rng):
+        res = run_norm2_case(nc)
+        if res["st"] != "ok" and str(res["out"]) == "timeout":
+            timeouts += 1
+            continue
+        if res["st"] != "ok" and str(res["out"]).startswith("LinAlgError"):
+            skipped += 1
+            continue
+        n_norm += 1
+        if nc["fn"] in FN2 and res["st"] == "ok":
+            exit_kind = "cap0" if nc["n_iter_max"] == 0 else "convergence" if norm2_decisions(nc, res)[2] else "cap"
+        else:
+            exit_kind = "cap0" if nc["n_iter_max"] == 0 else "cap_or_convergence"
+        chk.count(key=("norm2", nc["fn"], nc["shape"], nc["rank"], nc["init"], nc["n_iter_max"], nc["tol"], nc["normalize_factors"]))
+        chk.hist("norm_exit", nc["fn"] + ":" + exit_kind)
+        if res["st"] == "ok" and nc["fn"] in FN2:
+            cid = len(cases)
+            cases.append(norm2_case_lit(cid, nc, res))
+            meta.append(dict(kind="DNorm", shape=nc["shape"], spec=nc["rank"], kw={k_: v for k_, v in nc.items() if k_ not in ("shape", "rank")}))
+        r = pred_norm2(nc, res)
+        if r:
+            msg, pred = r
+            inputs = {k_: (list(v) if isinstance(v, tuple) else v) for k_, v in nc.items()}
+            inputs["exit"] = exit_kind
+            chk.finding(f"tensorly.decomposition.{nc['fn']}" if nc["fn"] != "cmtf" else ENTRY["DCmtf"], inputs, msg, pred)
     # ---- cp_normalize itself
     for cc in cp_normalize_cases(tier, rng):
         st, out, before = run_cp_normalize_case(cc)
@@ -916,6 +1149,17 @@ def _run(chk, rng):
             msg, pred = r
             chk.finding("tensorly.cp_tensor.cp_normalize", {k: (list(v) if isinstance(v, tuple) else v) for k, v in cc.items()}, msg, pred,
                         observed=None if st != "ok" else {"weights": out[0], "column_norms": [np.linalg.norm(f, axis=0) for f in out[1]]})
+        # tucker_normalize on a Tucker tensor of the same shape
+        if len(cc["shape"]) < 2:
+            continue                                    # a Tucker tensor has at least two factors
+        st, out, before, ranks = run_tucker_normalize_case(cc)
+        if not (st != "ok" and str(out) == "timeout"):
+            chk.count(key=("tucker_normalize", cc["shape"], cc["rank"], cc["zero_col"] is not None), nontrivial=prod(cc["shape"]) > 1)
+            chk.hist("entry_point", "tucker_normalize")
+            r = pred_tucker_normalize(cc, st, out, before, ranks)
+            if r:
+                msg, pred = r
+                chk.finding("tensorly.tucker_tensor.tucker_normalize", dict({k: (list(v) if isinstance(v, tuple) else v) for k, v in cc.items()}, tucker=True), msg, pred)
     t_impl = time.time()
     chk.notes.append(f"implementation runs + predicates: {t_impl - t_start:.1f}s wall, {time.process_time() - c_start:.1f}s cpu")
     failing, n_eval, broken = C.run_case_shards("C08", HEADER, "case", cases, shard=300, timeout=900)
@@ -977,7 +1221,15 @@ def replay(payload):
     inp = payload["inputs"]
     if "zero_col" in inp and "weights" in inp:
         cc = dict(inp); cc["shape"] = tuple(cc["shape"]); cc["zero_col"] = tuple(cc["zero_col"]) if cc["zero_col"] is not None else None
-        r = pred_cp_normalize(cc, *run_cp_normalize_case(cc))
+        if cc.pop("tucker", False):
+            r = pred_tucker_normalize(cc, *run_tucker_normalize_case(cc))
+        else:
+            r = pred_cp_normalize(cc, *run_cp_normalize_case(cc))
+    elif inp.get("fn") in ("non_negative_tucker", "non_negative_tucker_hals", "parafac2", "cmtf"):
+        nc = dict(inp); nc.pop("exit", None)
+        nc["shape"] = tuple(tuple(x) if isinstance(x, list) else x for x in nc["shape"])
+        nc["rank"] = tuple(nc["rank"]) if isinstance(nc["rank"], list) else nc["rank"]
+        r = pred_norm2(nc, run_norm2_case(nc))
     elif "fn" in inp and "normalize_factors" in inp:
         nc = dict(inp); nc["shape"] = tuple(nc["shape"]); nc.pop("cb_fired", None)
         res = run_norm_case(nc)
